@@ -233,15 +233,15 @@ ADDENDA = {
     "C06": " Also: taking a name apart (split/strip/truncate family) before storing it counts as normalisation (one named exception: Pauli words decoded into PauliGate values).",
     "C07": " Also: no writer re-processes the serialized text of a nested value (split/lines/replace/trim): repaired for DEFCIRCUIT bodies.",
     "C08": " Also: in every function that builds, merges, filters or rebuilds a Program store, no order-scrambling call (swap_remove, sort, reverse, ...) is applied to an insertion-ordered container and no insertion-ordered container is filled from an iteration over a hash-ordered one.",
-    "C09": " Also: CalibrationSet's backing vector is added to only by `replace`; every section of both listings is appended unconditionally.",
-    "C10": " Also: the rebuild covers each qubit-bearing sub-store (gate and measure calibrations separately), also when the cache is filled through a local collection; replacing a qubit-bearing definition triggers a rebuild (repaired).",
+    "C09": " Also: CalibrationSet's backing vector is added to only by `replace`; every section of both listings is appended unconditionally. Also: only add_instruction (and the whitelisted merge of two programs) appends to the body; a PRAGMA is moved to the extern store only under an exact `name == EXTERN`.",
+    "C10": " Also: the rebuild covers each qubit-bearing sub-store (gate and measure calibrations separately), also when the cache is filled through a local collection; replacing a qubit-bearing definition triggers a rebuild (repaired). Also: content merged from another Program must be matched by a rebuild, a union with that program's cache, or add_instruction(s) fed from the same store; a Program literal that takes over another value's cache takes every qubit-bearing store from that value too or rebuilds; a hand-written rebuild reads every Qubit-holding field of each definition type it walks.",
     "C11": " Also: every field merge of the nested merge helpers happens on every path (no fast path decided from part of the other operand).",
     "C12": " Guard helpers are inlined and let-else / if-chain bindings are modelled, so the affine rule is decided too; no undecided instance is left.",
     "C13": " Also: substitute_variables returns a node of the same kind for Infix/Prefix/FunctionCall on every path; every value evaluate computes from evaluated children goes through calculate_infix / calculate_function / negation.",
     "C14": " Also (shape rules, not part of the proof of the tables): every permutation step in two_swap_helper / permutation_arbitrary multiplies the new factor on the left of the accumulator in every branch; the gate's parameter reaches its matrix function unchanged.",
-    "C17": " Also: the parameter substitution in the closure handed to apply_to_expressions is unconditional; both public entry points return what expand_calibrations_inner built on every path.",
+    "C17": " Also: the parameter substitution in the closure handed to apply_to_expressions is unconditional; both public entry points return what expand_calibrations_inner built on every path. Also: the expansion output reaches the program only through add_instruction(s) (hoisting of DECLARE with and without a source map).",
     "C18": " Also: at every call in the expansion cycle and its public wrappers the callee's error is propagated (`?`, returned as is, or an Err arm that returns).",
-    "C23": " Also: every (region, access kind) of every instruction reaches the per-region queue (element-preserving adaptors only, unconditional record call).",
+    "C23": " Also: every (region, access kind) of every instruction reaches the per-region queue (element-preserving adaptors only, unconditional record call). Also: the pending write is assigned or mutably borrowed only inside the Write arm (a read never clears it).",
     "C24": " Also: the per-frame queues are keyed by a type holding the full FrameIdentifier (no order-forgetting set of qubits).",
     "C25": " Also: TimeSpan::union decided path by path (start = min of starts, end = max of ends, justified by the path's comparisons); the calibrated index map and span merge of BasicBlock::as_schedule.",
     "C26": " Also: each side of FrameSet::filter is evaluated whenever its condition is present (no Some-discarding adaptor, unconditional evaluation).",
